@@ -216,3 +216,51 @@ CHECKS["C09"] = dict(
                require=["episodes", "errors_RANGE", "errors_FORMAT", "errors_WRONG_TYPE", "errors_STATE", "errors_MAX_DEPTH_OBJECT", "errors_MAX_DEPTH_ARRAY", "errors_NULL"]),
           dict(name="c09w", src=WRITER, build="gasan", mode="c09w", cases=(60000, 1500000), require=["capacity_runs"])],
 )
+
+ENGINE_NOTES["w_reuse.c"] = "differential monitor: transcript of a scripted walk on a reused parser object vs a fresh one"
+CHECKS["C12"] = dict(
+    level_text="Differential monitor: a parser object is first abused (arbitrary document, abandoned random script possibly ending in any error, a rejected init, or random/0xFF/0x01 garbage over struct and state array) "
+               "and then re-targeted by init_object/init_array on another document, reset, verify or verify twice; a fixed random script of 5-60 calls over the whole API then runs on it and on a fresh zero-filled "
+               "parser, and the transcripts of every observable result (returns, error_flags, get_depth, getter values, spans as offsets, to_string/to_writer output) must be byte-identical. Writer: after arbitrary "
+               "use/overflow/NULL failure, init and a successful reset must give counter 0, no error, and piece-model behaviour for a following list.",
+    technique="differential runtime monitor: reused vs fresh object transcripts over random histories (parser) + piece model after init/reset (writer), ASan+UBSan",
+    level_note=LVL_NOTE,
+    title="A parser object carries nothing over: init/reset/verify give a clean start",
+    rule="c12p: one case = (previous document, previous script, optional garbage) x (restart kind) x (next document, script of 5-60 calls), max_depth from {1,2,3,4,10,40,255} equal in both; "
+         "c12w: one case = (list A at capacity a) x (init | init same buffer | reset) x (list B). non-trivial = a comparable pair was executed; distinct = hash(documents, restart kind, depth, script)",
+    assumptions=["the caller restores state pointer and max_depth after overwriting the struct with garbage (they are caller-owned configuration)",
+                 "spans are compared as offsets into the input buffer"],
+    jobs=[dict(name="c12p", src=["w_reuse.c", "vh.c"], build="gasan", mode="c12p", cases=(500000, 10000000), require=["script_calls", "restart_init", "restart_reset", "restart_verify", "restart_after_error", "restart_after_garbage", "verify_true_restarts"]),
+          dict(name="c12w", src=WRITER, build="gasan", mode="c12w", cases=(300000, 5000000), require=["reuse_after_init", "reuse_after_reset", "reuse_after_error", "reset_refused_small"])],
+)
+
+TEXT = ["w_text.c", "vh.c"]
+ENGINE_NOTES["w_text.c"] = "to_string size protocol at every capacity (C13); text vs reference renderer and captured stdout of print (C14)"
+CHECKS["C13"] = dict(
+    level_text="For every generated document (valid trees rich in long byte strings, huge/NaN/inf doubles, NUL-containing names, nesting; a fifth mutated) the NULL query is followed by a call at EVERY capacity "
+               "0..need+3 into a destination of exactly that capacity (exact-size heap block under ASan, every fifth a canary-tailed block, canary form for capacity 0): false + *size==need below need, "
+               "true + *size==need-1 + NUL + identical text at/above, nothing stored at or beyond the capacity or beyond text+NUL; invalid documents: false at every capacity. "
+               "Exhaustive over capacities per document (stratified above 4 KiB of text), sampled over documents.",
+    technique="runtime monitor: exhaustive capacity sweep per document into exact-size destinations under ASan/UBSan + canaries, self-consistency of the size protocol",
+    level_note=LVL_NOTE,
+    title="to_string obeys its size protocol and never overruns the text buffer",
+    rule="one case = one document; to_string is called once with NULL and once per capacity 0..need+3. non-trivial = document >= 3 bytes; distinct = hash(bytes, max_depth)",
+    exhaustive_note="per document: all capacities 0..need+3 (documents with <= 4 KiB of text)",
+    assumptions=["the text content itself is judged by C14; here only the protocol (sizes, terminator, identical text at all sufficient capacities, no store beyond capacity)"],
+    jobs=[dict(name="c13", src=TEXT, build="gasan", mode="c13", cases=(12000, 600000), require=["to_string_calls", "valid_documents", "invalid_documents"]),
+          dict(name="c13clang", src=TEXT, build="casan", mode="c13", cases=(0, 200000), thorough_only=True),
+          dict(name="c13vg", src=TEXT, build="plainO1g", mode="c13", cases=(0, 1600), thorough_only=True, wrap="valgrind -q --error-exitcode=99 --undef-value-errors=no", timeout=7200)],
+)
+CHECKS["C14"] = dict(
+    level_text="The text produced by to_string (ample capacity) is compared byte for byte with an independent reference renderer, and the bytes binson_parser_print writes to stdout (captured through a memfd) "
+               "with that text: for ALL trees with <= 6 (quick) / 7 (thorough) nodes over {int, bool, object, array} - every combination of empty/non-empty containers and scalars as first, middle, last sibling "
+               "at nesting levels 1..N - and for random valid documents with every value type, NUL-containing names/strings, huge doubles, long byte strings, nesting ladders.",
+    technique="differential runtime monitor: to_string text and captured print output vs independent reference renderer; exhaustive over small tree shapes + random documents, ASan+UBSan",
+    level_note=LVL_NOTE + " Doubles are rendered by the same libc printf in library and reference (the property says 'as printf %f').",
+    title="Printed text is the faithful rendering of the document",
+    rule="c14x: one case = one tree shape (prefix code such as OiA))) ; c14r: one case = one random valid document. non-trivial = every case; distinct = hash(document bytes)",
+    exhaustive_note="all container-rooted trees with <= N nodes over {int,bool,object,array} (N=6 quick: 28506 trees, N=7 thorough: 259674 trees)",
+    assumptions=["vt_render in harness/vh.c is the reference rendering of the statement"],
+    jobs=[dict(name="c14x", src=TEXT, build="gasan", mode="c14x", cases=(28506, 259674), opt=("6", "7"), require=["texts_compared", "print_outputs_compared"]),
+          dict(name="c14r", src=TEXT, build="gasan", mode="c14r", cases=(200000, 4000000), require=["texts_compared", "print_outputs_compared"])],
+)
